@@ -15,6 +15,8 @@ CONSTANTS
   NRoots = 1
   MaxLive = 3
   MaxOps = 4
+  GraphOps = TRUE
+  Probe = "none"
 INVARIANTS AuditInv AbsInv ClientOk
 PROPERTY Refines
 VIEW View
